@@ -151,6 +151,26 @@ def run(ctx):
             max_delay=rng.choice([60, 400, 1500]), replay=0.05, sizes=sizes, retry_modes=(0, 1, -1, -1),
             start={"ss": 100, "sm": 65300, "sf": 65535 - rng.randint(0, 3)} if i % 3 == 0 else None, send_rate=0.7, heal=True,
             take=0.1, dumps=0.1))
+    # one fragment of a guaranteed message is lost again and again (its first datagram, the retransmission and every repeat of it) while
+    # the rest of the traffic flows: whatever copy finally gets through must still be a FRAGMENT of that message (generator: C05's)
+    from harness.props import c05 as _c05
+    for j in range(ctx.scale(6, 40)):
+        mtu = rng.choice([1500, 512])
+        mf = (mtu - 66 - 6) if mtu - 66 < 1030 else 1024
+        count = rng.choice([2, 3, 4, 6])
+        target = rng.randint(1, count)
+        until = rng.choice([1100, 2100, 2300, 2500, 3200])
+
+        def plan(k, e, dt, mseqs, target=target, until=until):
+            # every datagram that carries fragment number `target` (a retransmitted fragment travels under a new message number, and
+            # a re-queued copy of it possibly under another type: recognise it by its 6-byte fragment header)
+            if e != "a" or dt >= until:
+                return False
+            pkt = plan.__dict__.get("pkt") or {}
+            if any(f[1] == target for f in pkt.get("frags", {}).values()):
+                return True
+            return any(hdr6 is not None and hdr6[1] == target for hdr6 in pkt.get("heads", []))
+        cases.append(_c05.gen_size_case(real, rng, "fl%d" % j, mtu, [count * mf - rng.randint(0, mf - 1)], plan, lossy=until + 50))
     real2 = connlib.Real()
 
     def nontrivial(case, outs):
